@@ -137,6 +137,7 @@ type Point struct {
 	Label string `json:"label"`
 	N     int    `json:"n"`
 	Chose int    `json:"chose"`
+	Add   int    `json:"add"` // index of the Add call being executed
 }
 
 type env struct {
@@ -147,6 +148,7 @@ type env struct {
 	BadPick string
 	hook    func(label string) // called at every callback boundary (crash points / scheduling)
 	around  string             // directory surrounding the bundle target ("<AROUND>" in link targets)
+	curAdd  int
 }
 
 // Choose returns the scripted answer at this point (0 = default).
@@ -162,7 +164,7 @@ func (e *env) Choose(label string, n int) int {
 		e.BadPick = fmt.Sprintf("choice %d out of range at point %d (%s, n=%d)", c, e.pos-1, label, n)
 		c = 0
 	}
-	e.Points = append(e.Points, Point{label, n, c})
+	e.Points = append(e.Points, Point{label, n, c, e.curAdd})
 	return c
 }
 
@@ -755,7 +757,8 @@ func runBuild(arg BuildArg) (out BuildOut) {
 		return wFinder{id: id, w: &w, env: e, log: log, flip: arg.Flip}
 	}
 	failed := false
-	for _, a := range arg.Adds {
+	for ai, a := range arg.Adds {
+		e.curAdd = ai
 		ao := doAdd(ctx, b, a, mkFinder)
 		out.Adds = append(out.Adds, ao)
 		if ao.HasErrors || ao.Panic != "" {
